@@ -16,7 +16,7 @@ TECHNIQUE = 'symbolic execution of MpReachNLRI/MpUnReachNLRI construct + Update.
 EXPLANATION = 'C07: per-family MP_REACH/MP_UNREACH round trips.'
 BOUNDS = 'IPv4 prefix lengths 0..32, IPv6 0..128 (boundary set in quick); label stack depth 1..2; 1..2 routes; RD types 0/1/2; ESI types 0..5; flowspec components 1..11 x 5 operators x 1/2/4-byte operands'
 ASSUMPTIONS = ['IPv6 / MAC / ESI type-0 / flowspec operand values concretised from pools', 'netaddr model for symbolic IPv4 text']
-BUDGET = {'quick': 330, 'thorough': 1500}
+BUDGET = {'quick': 330, 'thorough': 3600}
 
 V6_POOL = ['2001:db8::', '2001:db8:1:2:3:4:5:6', 'ffff:ffff:ffff:ffff:ffff:ffff:ffff:ffff', 'fe80::1', '::', '::1',
            '2001:db8:0:1::', '1::']
